@@ -156,7 +156,7 @@ def Knows (mgr : MgrFn) (pt : Nat) (exts : List Ext) : Prop :=
   (pt < MAX_MANDATORY_VAL_PTYPE → ∀ e ∈ exts.getLast?,
       e.id = pt ∧ e.kind = .mandatory ∧ mgr e.id = .final e.data.length)
 
-instance (mgr : MgrFn) (pt : Nat) (exts : List Ext) : Decidable (Knows mgr pt exts) := by
+instance instDecidableKnows (mgr : MgrFn) (pt : Nat) (exts : List Ext) : Decidable (Knows mgr pt exts) := by
   unfold Knows; infer_instance
 
 theorem Knows.wf {mgr : MgrFn} {pt : Nat} {exts : List Ext} (h : Knows mgr pt exts) :
